@@ -45,6 +45,7 @@ structure LSt where
   sigs : List (Nat × LSig) := []
   ownedT : List Nat := []
   ownedK : List (Nat × Option Nat) := []
+  ownedG : List (Nat × Nat) := []
   next : Nat := 1
   depth : Nat := 0
   steps : Nat := 0
@@ -181,6 +182,7 @@ def mkFun (s : LSt) (isVoid : Bool) : FSpec → Except String (Fun × LSt)
     | none => .error "dead"
     | some h =>
       if h.fl.isVoid != isVoid then .error "badtype"
+      else if !h.fl.isTrackable && s.ownedG.any (fun p => p.2 = g) then .error "owned"
       else
         let s := { s with G := aset s.G g { h with everFwd := true } }
         .ok (.fwd h.obj (if h.fl.isTrackable then [h.trk] else []), s)
@@ -194,6 +196,14 @@ def mkFun (s : LSt) (isVoid : Bool) : FSpec → Except String (Fun × LSt)
     | some p =>
       let (id, s) := s.fresh
       .ok (.owner fid [] [id], { s with K := adel s.K k, ownedK := (id, p) :: s.ownedK })
+  | .ownG fid g =>
+    match aget s.G g with
+    | none => .error "dead"
+    | some h =>
+      if h.everFwd && !h.fl.isTrackable then .error "pinned" else
+      if s.ownedG.any (fun p => p.2 = g) then .error "owned" else
+      let (id, s) := s.fresh
+      .ok (.owner fid [] [id], { s with ownedG := (id, g) :: s.ownedG })
   | .bad => .error "badtype"
 
 /-- connected(): the slot it was obtained for is still held by its signal and valid -/
@@ -221,6 +231,17 @@ def heldK (s : LSt) (k : Nat) : Bool :=
   s.S.any (fun p => p.2.slot.holdsK k)
   || s.sigs.any (fun p => p.2.cells.any (fun c => c.slot.holdsK k) || p.2.limbo.any (fun sl => sl.holdsK k))
 
+/-- the signal object named `g` is destroyed (what `delG` does when it does not refuse) -/
+def dropHandle (s : LSt) (g : Nat) : LSt :=
+  match aget s.G g with
+  | none => s
+  | some h =>
+    let s := if h.fl.isTrackable then invalidateTrackable s h.trk else s
+    let s := { s with G := adel s.G g }
+    match h.impl with
+    | some im => gcSig s im
+    | none => s
+
 /-- an object owned by functors dies with the last functor copy holding it: a trackable invalidates
     the slots referring to it, a scoped_connection disconnects its slot -/
 def collectStep (s : LSt) : Option LSt :=
@@ -233,7 +254,10 @@ def collectStep (s : LSt) : Option LSt :=
       some (match p with
         | some cid => removeCell s cid
         | none => s)
-    | none => none
+    | none =>
+      match s.ownedG.find? (fun p => !heldK s p.1) with
+      | some (k, g) => some (dropHandle { s with ownedG := s.ownedG.filter (fun q => q.1 ≠ k) } g)
+      | none => none
 
 def collectN : Nat → LSt → LSt
   | 0, s => s
@@ -242,7 +266,7 @@ def collectN : Nat → LSt → LSt
     | some s' => collectN n s'
     | none => s
 
-def collect (s : LSt) : LSt := collectN (s.ownedT.length + s.ownedK.length) s
+def collect (s : LSt) : LSt := collectN (s.ownedT.length + s.ownedK.length + s.ownedG.length) s
 
 def liveCount (s : LSt) (fid : Nat) : Nat :=
   (s.S.map (fun p => p.2.slot.live fid)).sum
@@ -479,6 +503,10 @@ def stepSimple (s : LSt) (op : Op) : Option (LSt × String) :=
     | some d, some h =>
       if d.fl ≠ h.fl then ok s "badtype" else
       if d.lvl ≠ h.lvl then ok s "badlevel" else
+      -- move assignment may assume that both objects outlive the call: refused when the old slot list, which the
+      -- assignment releases, may own the source (any flavour) or the destination (read again by trackable_signal)
+      if !h.fl.isAcc && (s.ownedG.any (fun p => p.2 = i) || (h.fl.isTrackable && s.ownedG.any (fun p => p.2 = j)))
+      then ok s "owned" else
       if h.fl.isAcc then
         if j = i then ok s "ok" else
         match ensureSig s i with
@@ -497,6 +525,7 @@ def stepSimple (s : LSt) (op : Op) : Option (LSt × String) :=
     | none => ok s "dead"
     | some h =>
       if h.everFwd && !h.fl.isTrackable then ok s "pinned" else
+      if s.ownedG.any (fun p => p.2 = i) then ok s "owned" else
       let s := if h.fl.isTrackable then invalidateTrackable s h.trk else s
       let s := { s with G := adel s.G i }
       ok (match h.impl with | some im => gcSig s im | none => s) "ok"
@@ -739,7 +768,7 @@ def emitSig : Nat → Prog → LSt → Flavour → Option Nat → Nat → Strat 
         let (m, s) := s.fresh
         let s := setSig s i { g with active := g.active + 1,
                                      cells := if s.k2 then g.cells ++ [{ id := m, slot := {}, marker := true }] else g.cells }
-        let r := if fl.isAcc then runStrat f P s i snap arg strat
+        let r := if fl.isAcc then runStrat f P s i snap arg (strat.forFlavour fl)
                  else turns f P s i snap arg 0
         match r with
         | none => none
